@@ -138,6 +138,15 @@ def cli_stream(rep, r, n):
     """every successful bump through the CLI, whatever else it changes (date, tag, pinned increments, MAJOR ...), moves BUILD up"""
     import re as _re
     from . import impl
+    # a BUILD typed in digits outside ASCII is not a BUILD value: the version is rejected -- or, if it is read, the result obeys the same rules
+    for odd in ("\uff11\uff10\uff10\uff11", "\u0661\u0660\u0660\u0661", "10\u0660\u0661"):
+        code, out, exc = impl.run_cli(["test", "2020." + odd, "YYYY.BUILD", "--date", "2020-06-01"])
+        new = impl.parse_new_version(out) if code == 0 else None
+        rep.case(("cli-non-ascii-digits", odd), nontrivial=True)
+        if new is not None:
+            nb = new.split(".", 1)[1]
+            if not (nb > odd and nb.isascii()):
+                rep.violation("a BUILD in non-ASCII digits is accepted and bumped to a value that is not greater as a plain string", input=dict(args=["test", "2020." + odd, "YYYY.BUILD"], new=new), **{"class": "not-greater-str"})
     for i_ in range(n):
         pat, tmpl, rx = CLI_PATTERNS[i_ % len(CLI_PATTERNS)]
         bid = r.choice(["7", "42", "099", "0998", "1001", "1999", "22000", "0001", "9998", "10999", "899999", "01234", "09997", "000123", "0010000", "1009", "1099", "1999", "10009", str(r.randrange(0, 99999))])
